@@ -486,6 +486,21 @@ def key_cases(chk, n):
     return cases
 
 
+# ---------------------------------------------------------------------- fixed cases (constructs the random inputs reach only by luck)
+def fixed_module_cases():
+    """small deterministic inputs, one per construct of the emitted code that has its own import or helper"""
+    s_opt = [{"n": "1", "f": "1.5", "b": "true", "g": 1}, {"g": 2}]                 # Optional pseudo-typed fields
+    s_cont = [{"l": [1], "d": {"k1": 1}, "o": {"x": 1}, "g": 1}, {"g": 2}]          # optional containers / nested model
+    cases = []
+    for fw in FRAMEWORKS:
+        for kw in ({}, {"post_init_converters": True}):
+            if kw and fw not in ("attrs", "dataclasses", "base"):
+                continue
+            cases.append(dict(roots=[("Root", s_opt)], envspec={}, policy=DR.POLICIES[1], fw=fw, layout="flat", kw=dict(kw)))
+            cases.append(dict(roots=[("Root", s_cont)], envspec={"dkr": [r"k\d"]}, policy=DR.POLICIES[1], fw=fw, layout="nested", kw=dict(kw)))
+    return cases
+
+
 # ---------------------------------------------------------------------- names a generated module imports or defines
 IMPORTED_NAMES = ["IntString", "FloatString", "BooleanString", "IsoDateString", "IsoTimeString", "IsoDatetimeString",
                   "Optional", "List", "Dict", "Any", "Union", "Literal", "BaseModel", "Field", "SQLModel", "attr", "field", "dataclass",
